@@ -101,8 +101,7 @@ Definition sib_val (f : nat) (e : env) (p : path) (of_type : bool) (s : sellist)
     if negb c1 then (false, path_eqb q p)
     else (negb of_type || match_nth_tag_type cx p q, path_eqb q p).
 
-Theorem match_nth_one f0 e p a var b of_type (last : bool) s m pos :
-  let f := S f0 in
+Theorem match_nth_one f e p a var b of_type (last : bool) s m pos :
   good m ->
   let sibs := sibs_of p in
   let walk := if last then rev sibs else sibs in
@@ -110,9 +109,9 @@ Theorem match_nth_one f0 e p a var b of_type (last : bool) s m pos :
   (forall q n, In (q, n) sibs -> is_elem n = true -> sl_sels s <> [] -> sval f e s q <> None) ->
   (sl_sels s <> [] -> sval f e s p = Some true) ->
   pos_of (map (sib_val f e p of_type s) walk) 0 = Some pos ->
-  exists m', match_nth bidi cx (S f) e p [SNth a var b of_type last s] m = Ok (nth_closed a b var pos, m') /\ good m'.
+  exists m', match_nth1 bidi cx (S f) e p (SNth a var b of_type last s) m = Ok (nth_closed a b var pos, m') /\ good m'.
 Proof.
-  intros f Hm sibs walk Hnoex Hself Hpos. cbn [match_nth]. fold (match_selectors bidi cx).
+  intros Hm sibs walk Hnoex Hself Hpos. cbn [match_nth1]. fold (match_selectors bidi cx).
   fold (sibs_of p). fold sibs. fold walk.
   assert (Hok0 : exists m0, (if match sl_sels s with [] => false | _ => true end then match_selectors bidi cx f e p s else ret true) m
                             = Ok (true, m0) /\ good m0).
@@ -133,8 +132,13 @@ Proof.
   pose proof (pos_of_le_length _ _ _ Hpos) as Hle. rewrite map_length in Hle.
   assert (Hlen : length walk = length sibs) by (unfold walk; destruct last; [apply rev_length | reflexivity]).
   pose proof (nth_core_exact a b var (Z.of_nat (length sibs)) _ pos Hpos ltac:(lia)) as Hex.
-  destruct (core_sim classify _ a b var _ walk m0 _ Hv Hm0 Hex) as (m' & Hc & Hm').
-  unfold bindM. rewrite Hc. destruct (nth_closed a b var pos); exists m'; (split; [reflexivity | exact Hm']).
+  exact (core_sim classify _ a b var _ walk m0 _ Hv Hm0 Hex).
 Qed.
+
+(* the records of a compound are a conjunction, evaluated left to right *)
+Theorem match_nth_conj fuel e p n rest m :
+  match_nth bidi cx fuel e p (n :: rest) m =
+  bindM (match_nth1 bidi cx fuel e p n) (fun b => if b then match_nth bidi cx fuel e p rest else ret false) m.
+Proof. reflexivity. Qed.
 End E.
 Print Assumptions match_nth_one.
